@@ -2,6 +2,7 @@
 import argparse
 import json
 import os
+import re
 import shutil
 import subprocess
 import sys
@@ -83,6 +84,60 @@ def fresh_replay(path, repo, timeout=600):
             os.unlink(log.name)
         except OSError:
             pass
+
+
+def _fresh_fails(doc, ops, repo, tag):
+    """Replay `ops` in a brand-new interpreter; True iff the same invariant fails."""
+    cand = dict(doc, ops=ops)
+    path = os.path.join(OUT, 'cand-%s-%d.json' % (tag, os.getpid()))
+    with open(path, 'w') as f:
+        json.dump(cand, f)
+    try:
+        _, res = fresh_replay(path, repo, timeout=300)
+    finally:
+        try:
+            os.unlink(path)
+        except OSError:
+            pass
+    v = res.get('violation')
+    return bool(v and not res.get('harness_error') and v['invariant'] == doc['expect']['invariant']), res
+
+
+def fresh_minimise(doc, repo, budget_s=240):
+    """ddmin in which every candidate runs in its own fresh interpreter (used only when a violation depends on
+    process-global state, so that in-process minimisation is unsound).  Candidates of one round run in parallel."""
+    from concurrent.futures import ThreadPoolExecutor
+    ops = list(doc['original_ops'])
+    swarm = doc.get('original_swarm', doc['swarm'])
+    base = dict(doc, swarm=swarm)
+    ok, res = _fresh_fails(base, ops, repo, 'o')
+    if not ok:
+        return None
+    t_end = time.monotonic() + budget_s
+    chunk = max(1, len(ops) // 2)
+    while chunk >= 1 and time.monotonic() < t_end:
+        cands = [(i, ops[:i] + ops[i + chunk:]) for i in range(0, len(ops), chunk) if len(ops) - chunk >= 1]
+        hit = None
+        with ThreadPoolExecutor(max_workers=8) as ex:
+            futs = [(i, c, ex.submit(_fresh_fails, base, c, repo, 'c%d' % i)) for i, c in cands]
+            for i, c, fu in futs:
+                if hit is None and fu.result()[0]:
+                    hit = c
+        if hit is not None:
+            ops = hit
+            chunk = min(chunk, max(1, len(ops) // 2))
+        elif chunk == 1:
+            break
+        else:
+            chunk //= 2
+    ok, res = _fresh_fails(base, ops, repo, 'f')
+    if not ok:
+        return None
+    new = dict(base, ops=ops, minimised_len=len(ops), minimised_in='fresh interpreters (process-global state involved)')
+    new['expect'] = {'invariant': res['violation']['invariant'], 'step': res['violation']['step'],
+                     'message': res['violation']['message'], 'event_digest': res['event_digest']}
+    new['invariant'] = res['violation']['invariant']
+    return new
 
 
 def run_jobs(jobs, ncpu, repo, wall_s, stop_on_violation=True):
@@ -290,16 +345,61 @@ def cmd_check(prop, tier, repo, batch_seed, runs=None, quiet=False, wall=None, o
             violations.append(r['violation'])
     rc = 0
     verified = []
+    second_chance = []          # run seeds whose violation depended on state left in the worker by earlier runs
     for v in violations:
         doc, res = fresh_replay(v['replay'], repo)
         if res.get('harness_error') or not res.get('violation') or \
                 res['violation']['invariant'] != doc['expect']['invariant'] or \
                 res['violation']['step'] != doc['expect']['step'] or \
                 res['event_digest'] != doc['expect']['event_digest']:
-            errors.append('replay of %s in a fresh interpreter did not reproduce: %s' % (
-                v['replay'], json.dumps(res)[:1500]))
+            new = fresh_minimise(doc, repo) if doc.get('original_ops') else None
+            if new is not None:
+                with open(v['replay'], 'w') as f:
+                    json.dump(new, f, indent=1)
+                verified.append(dict(v, invariant=new['invariant'], message=new['expect']['message'],
+                                     minimised_len=new['minimised_len']))
+            else:
+                second_chance.append((v['run_seed'], 'replay of %s in a fresh interpreter did not reproduce: %s' % (
+                    v['replay'], json.dumps(res)[:600])))
         else:
             verified.append(v)
+    kept = []
+    for e in errors:
+        mm = re.search(r'"run_seed": (\d+), "trace": "violation \S+ did not reproduce in-process on replay"', e)
+        if mm:
+            second_chance.append((int(mm.group(1)), e))
+        else:
+            kept.append(e)
+    errors = kept
+    # Second chance: a violation that hinges on process-global state (e.g. a mutated default argument) polluted by
+    # earlier runs of the same worker cannot be minimised there.  Re-execute that one run, alone, in a fresh interpreter:
+    # if the property really is broken by this run's own history it fails again and is minimised and replayed cleanly.
+    for run_seed, why in second_chance[:4]:
+        sub_dir = os.path.join(out_dir, 'second')
+        jobs2 = make_jobs(prop, tier, batch_seed, 1, sub_dir, 120, excluded, only_seed=run_seed)
+        res2, err2 = run_jobs(jobs2, 1, repo, 400)
+        ok = False
+        for r in res2:
+            v = r.get('violation')
+            if v and v['invariant'] not in seen_inv | set(x['invariant'] for x in verified):
+                doc, res = fresh_replay(v['replay'], repo)
+                if not res.get('harness_error') and res.get('violation') and \
+                        res['violation']['invariant'] == doc['expect']['invariant'] and \
+                        res['event_digest'] == doc['expect']['event_digest']:
+                    verified.append(v)
+                    ok = True
+                else:
+                    new = fresh_minimise(doc, repo) if doc.get('original_ops') else None
+                    if new is not None:
+                        with open(v['replay'], 'w') as f:
+                            json.dump(new, f, indent=1)
+                        verified.append(dict(v, invariant=new['invariant'], message=new['expect']['message'],
+                                             minimised_len=new['minimised_len']))
+                        ok = True
+            elif v and any(x['invariant'] == v['invariant'] for x in verified):
+                ok = True
+        if not ok:
+            errors.append(why + ' (and the run does not fail when executed alone in a fresh interpreter)')
     known_lines, kviols = [], []
     try:
         known_lines, kviols = confirm_known(prop, repo)
